@@ -20,6 +20,9 @@ from yatiml.util import ScalarType, scalar_type_to_tag
 
 _Any = NewType('_Any', int)
 
+# Converts scalar nodes to values the same way loading a document does
+_scalar_constructor = yaml.constructor.SafeConstructor()
+
 
 class Node:
     """A wrapper class for yaml Nodes that provides utility functions.
@@ -89,9 +92,13 @@ class Node:
         if self.yaml_node.tag == 'tag:yaml.org,2002:str':
             return str(self.yaml_node.value)
         if self.yaml_node.tag == 'tag:yaml.org,2002:int':
-            return int(self.yaml_node.value)
+            # YAML ints may be octal, hexadecimal, binary or sexagesimal
+            return cast(int, _scalar_constructor.construct_yaml_int(
+                self.yaml_node))
         if self.yaml_node.tag == 'tag:yaml.org,2002:float':
-            return float(self.yaml_node.value)
+            # likewise, this understands .inf, .nan and so on
+            return cast(float, _scalar_constructor.construct_yaml_float(
+                self.yaml_node))
         if self.yaml_node.tag == 'tag:yaml.org,2002:bool':
             return self.yaml_node.value in ['TRUE', 'True', 'true']
         if self.yaml_node.tag == 'tag:yaml.org,2002:null':
